@@ -128,6 +128,7 @@ type gen struct {
 	deferred []*ssa.Defer
 	sweepFrames string // non-empty: frame sweep of this property; callees are called through their sweep frame contracts
 	ifaceCtrs []*Contract // contracts of interface methods this method implements (behavioural subtyping)
+	skipCand   map[string]bool // candidate invariants that did not hold on an earlier pass (sweeps)
 	rxElemKey  string // element array of syntax.Expr lists (theory regex-syntax-valid), preserved for rxlist bases
 	outerState *state // the state current when the outermost old(...) / state switch started (see loadLocal)
 	loopHavoc bool // the havoc in progress is a loop cut, not a call
@@ -1455,6 +1456,27 @@ func (g *gen) loopInvariants(li *loopInfo) []*Clause {
 	}
 	if li.spec != nil {
 		out = append(out, li.spec.Invs...)
+	}
+	if g.sweepFrames != "" {
+		// candidate: a local slice variable that a loop carries around is nil or was allocated by this function (so appending to it
+		// in place writes nothing that existed before the call). Candidates that do not hold are dropped on a second pass.
+		for _, p := range li.phis {
+			if p.Comment == "" || p.Comment == "rangeindex" {
+				continue
+			}
+			if _, ok := p.Type().Underlying().(*types.Slice); !ok {
+				continue
+			}
+			label := "local-slice-stays-local " + p.Comment
+			if g.skipCand[fmt.Sprintf("loop#%d/%s", li.ord, label)] {
+				continue
+			}
+			id := &SExpr{Op: "id", Name: p.Comment}
+			out = append(out, &Clause{Label: label, E: &SExpr{Op: "||", Args: []*SExpr{
+				{Op: "==", Args: []*SExpr{{Op: "call", Name: "base", Args: []*SExpr{id}}, {Op: "int", Lit: "0"}}},
+				{Op: "call", Name: "fresh", Args: []*SExpr{id}},
+			}}})
+		}
 	}
 	if g.sweepFrames != "" && g.ctr != nil {
 		// owned slices and maps stay owned across every loop as well (same clause as the postcondition)
